@@ -253,9 +253,12 @@ def f_resdetached(kind="fail", slow_len=4):
 
 # -- F-prodcons (C03) --------------------------------------------------------------------------
 
-def f_prodcons(consumer="amend_first", producer_by="plan", declared=0, tree=0):
-    """P writes o.txt in two actions from src.txt; C uses o.txt (amended or declared)."""
-    p_prog = [["write_partial", "o.txt"], ["write", "o.txt", ["src.txt"]]]
+def f_prodcons(consumer="amend_first", producer_by="plan", declared=0, tree=0, late=0, pv=1, cv=1):
+    """P writes o.txt in two actions from src.txt; C uses o.txt (amended or declared).
+    late=1: the plan declares C first and P only after two idle actions (so C may already run
+    when P is (re-)declared); pv is an argument of P's command (another pv is another step with
+    another result, the script itself is unchanged), cv the version of C's script."""
+    p_prog = [["write_partial", "o.txt"], ["write", "o.txt", ["src.txt"], "@argv"]]
     if consumer == "amend_first":
         c_prog = [["amend", {"inp": ["o.txt"]}], ["read", "o.txt"], ["write", "c.out", ["o.txt"]]]
     elif consumer == "read_first":
@@ -263,14 +266,18 @@ def f_prodcons(consumer="amend_first", producer_by="plan", declared=0, tree=0):
                   ["write", "c.out", ["o.txt"]]]
     else:
         c_prog = [["read", "o.txt"], ["write", "c.out", ["o.txt"]]]
-    files = {"src.txt": "src\n", "p.py": script(p_prog), "c.py": script(c_prog)}
-    p_step = ["run", "./p.py", {"inp": ["src.txt"], "out": ["o.txt"]}]
+    files = {"src.txt": "src\n", "p.py": script(p_prog), "c.py": script(c_prog, v=cv)}
+    p_step = ["run", "./p.py" if pv == 1 else f"./p.py {pv}", {"inp": ["src.txt"], "out": ["o.txt"]}]
+    if late == 2:
+        # a producer without any input: nothing re-confirms it when the plan runs again, so the
+        # old incarnation stays SUCCEEDED/BUILT while it is detached
+        p_step = tr(f"P{pv}", [], ["o.txt"])
     c_kw = {"out": ["c.out"]}
     if declared:
         c_kw["inp"] = ["o.txt"]
     c_step = ["run", "./c.py", c_kw]
     if producer_by == "plan":
-        root = [["static", "src.txt", "p.py", "c.py"], c_step, p_step]
+        root = [["static", "src.txt", "p.py", "c.py"], *([c_step, ["nop"], ["nop"], p_step] if late else [c_step, p_step])]
     else:
         root = [["static", "src.txt", "p.py", "c.py", "plan2.py"], c_step, ["plan", "./plan2.py"]]
         files["plan2.py"] = script([p_step])
